@@ -122,7 +122,7 @@ func (s *stampStore) take() int64 {
 // input of SplitUTXO; the real recommendation is ~1e19 H/byte, far above hastings-scale outputs).
 type feeManager struct {
 	*chain.Manager
-	g *gate
+	g   *gate
 	fee types.Currency
 }
 
